@@ -4,8 +4,8 @@ Space: assignment lists of 1..2 (quick) / 1..3 (thorough) over targets {a1, a[2]
 {literal, a2, a1, a1 + a2, NR, NU, b2} (swap and double assignment included) x WHERE x {no join, INNER, LEFT} x with/without SET,
 over all tables of the prefix-closed row tree (ragged rows, None cells) plus a de Bruijn table per query.
 """
-import time, itertools
-from vf import core, refql, qcheck, alphabet
+import os, time, shutil, tempfile, itertools
+from vf import core, refql, refcsv, qcheck, alphabet, tree, drive
 
 PID = 'C05'
 
@@ -73,8 +73,105 @@ def diagnose_js(q, A, B, exp, got, why):
         return 'F4:js-update-mutates-caller-rows'
     return 'update-mismatch'
 
+HEADER_MODES = [(True, '', True), (False, ' WITH (header)', True), (False, ' with (headers)', True), (False, ' With(header)', True),
+                (True, ' WITH (noheader)', False), (True, ' with (noheaders)', False), (False, '', False), (True, ' with (header)', True), (False, ' WITH (noheaders)', False)]
+
+
+def part_csv(sh, res):
+    """UPDATE through the CSV front-ends (rbql-py query_csv, rbql-js query_csv in stream and bulk mode): the header line is never updated, never counted by NR and is copied
+    to the output; which line is the header follows the caller flag unless a WITH modifier (4 spellings) overrides it"""
+    rb = tree.load()
+    sp_ = space(sh['tier'], sh['seed'])
+    names = sp_['names']
+    rowsC = [[r[0], r[1]] for r in sp_['nrows'] if None not in r] + [[sp_['names'][0], sp_['names'][1]], ['', 'x,"y']]
+    tabs = list(qcheck.tables_upto(rowsC, 2)) + [rowsC]
+    base = '/dev/shm' if os.path.isdir('/dev/shm') else tempfile.gettempdir()
+    scratch = tempfile.mkdtemp(prefix='vfc05.', dir=base)
+    st = lambda recs: [['' if v is None else str(v) for v in r] for r in recs]
+    jsbatch, jsmeta = [], []
+    try:
+        qs = [(kind, q) for kind, q in sp_['qs'] if kind == 'named' or (kind == 'plain' and not any(t[2] == 3 for t, _ in q['assign']))]
+        qs = qs[sh['lo']::sh['step']]
+        fi = 0
+        for kind, q in qs:
+            text = refql.render(q, 'py')
+            textjs = refql.render(q, 'js')
+            for flag, mod, eff in HEADER_MODES:
+                if kind == 'named' and not eff:
+                    continue
+                for A in tabs:
+                    if eff:
+                        exp = refql.evaluate(q, A, None, names, None)
+                        expn = refql.evaluate_neutral(q, A, None, names, None)
+                        want = lambda e: [names] + st(e.records)
+                    else:
+                        exp = refql.evaluate(q, [names] + A, None, None, None)
+                        expn = refql.evaluate_neutral(q, [names] + A, None, None, None)
+                        want = lambda e: st(e.records)
+                    fi += 1
+                    p1, po = os.path.join(scratch, 'i%d.csv' % fi), os.path.join(scratch, 'o.csv')
+                    with open(p1, 'w', newline='', encoding='utf-8') as f:
+                        f.write(refcsv.ref_write([names] + A, ',', 'quoted'))
+                    err, recs = None, None
+                    try:
+                        with core.watchdog(10):
+                            rb.query_csv(text + mod, p1, ',', 'quoted', po, ',', 'quoted', 'utf-8', [], flag)
+                        with open(po, newline='', encoding='utf-8') as f:
+                            recs = refcsv.ref_read(f.read(), ',', 'quoted').records
+                    except BaseException as e:
+                        if isinstance(e, (KeyboardInterrupt, SystemExit)):
+                            raise
+                        err = drive.classify_py(e)
+                    res.evaluations += 1
+                    res.traces += 1
+                    res.states += 1
+                    case = {'front_end': 'query_csv', 'query': text + mod, 'caller_header_flag': flag, 'file_lines': [names] + A}
+                    if exp.error is not None:
+                        if err is None or err[0] != exp.error[0]:
+                            res.violation('csv-update-mismatch', case, {'error': exp.error}, {'records': recs, 'error': err})
+                        else:
+                            res.feat('csv_update_error_cases')
+                    elif err is not None or recs != want(exp):
+                        res.violation('csv-update-mismatch', case, {'records': want(exp)}, {'records': recs, 'error': err})
+                    else:
+                        res.feat('csv_update_cases')
+                        if flag != eff:
+                            res.feat('csv_update_modifier_overrides_flag')
+                        if A and want(exp) != [names] + A:
+                            res.nontrivial += 1
+                    if expn is not None and fi % 2 == 0:
+                        for bulk in (False, True):
+                            jsbatch.append({'op': 'query_csv', 'query': textjs + mod, 'input_path': p1, 'out_path': os.path.join(scratch, 'jo.csv'), 'dlm': ',', 'policy': 'quoted', 'with_headers': flag, 'bulk': bulk})
+                            jsmeta.append((expn, want(expn) if expn.error is None else None, {'front_end': 'rbql-js query_csv', 'bulk': bulk, 'query': textjs + mod, 'caller_header_flag': flag, 'file_lines': [names] + A}))
+                    else:
+                        os.unlink(p1)
+        from vf import js
+        if js.available() and jsbatch:
+            outs = js.run_batch(jsbatch)
+            for (expn, wanted, case), o in zip(jsmeta, outs):
+                res.evaluations += 1
+                res.traces += 1
+                if expn.error is not None:
+                    if 'error' not in o or drive.classify_js(o['error'])[0] != expn.error[0]:
+                        res.violation('js:csv-update-mismatch', case, {'error': expn.error}, o)
+                    else:
+                        res.feat('js_csv_update_error_cases')
+                    continue
+                got = refcsv.ref_read(o.get('output') or '', ',', 'quoted').records if 'error' not in o else None
+                if got != wanted:
+                    res.violation('js:csv-update-mismatch', case, {'records': wanted}, o)
+                else:
+                    res.feat('js_csv_update_cases')
+        res.sample({'csv_update': [q_[1]['assign'] for q_ in qs[:1]], 'header_modes': [m[1] or ('flag=%s' % m[0]) for m in HEADER_MODES]})
+    finally:
+        shutil.rmtree(scratch, ignore_errors=True)
+
 
 def run_shard(sh):
+    if sh.get('part') == 'csv':
+        res = core.Result()
+        part_csv(sh, res)
+        return res
     res = core.Result()
     sp_ = space(sh['tier'], sh['seed'])
     maxrows = 3 if sh['tier'] == 'thorough' else 2
@@ -122,13 +219,14 @@ def main(tier, seed):
     t0 = time.time()
     sp_ = space(tier, seed)
     shards = [{'tier': tier, 'seed': seed, 'lo': lo, 'hi': hi} for lo, hi in core.chunks(len(sp_['qs']), 128)]
+    shards += [{'part': 'csv', 'tier': tier, 'seed': seed, 'lo': i, 'step': 16 if tier == 'thorough' else 48} for i in range(16)]
     res = core.run_shards('vf.checks.c05', shards)
     return core.finish(PID, tier, seed, res, t0,
         rule='all assignment lists up to the bound (targets aN / a[N] / a.name / a["name"] / a[\'name\'] incl. a field missing in short rows; right-hand sides literal, fields, concatenation, NR, NU, b2, bNR) '
-             'x WHERE x {none, INNER, LEFT JOIN} x with/without SET x all tables of the prefix-closed row tree + a de Bruijn table; non-trivial = at least one row actually changes',
+             'x WHERE x {none, INNER, LEFT JOIN} x with/without SET x all tables of the prefix-closed row tree + a de Bruijn table; the named and two-column queries also through rbql-py / rbql-js query_csv on files x 9 header modes (caller flag x WITH spellings); non-trivial = at least one row actually changes',
         assumptions=['RefQL is the statement of the semantics', 'UPDATE + LEFT JOIN on an unmatched row: both "unchanged" (C05 wording) and "updated against an all-None partner" (C04 wording) are accepted'],
         extra={'queries': len(sp_['qs'])},
-        min_features={'some_rows_unchanged': 100, 'ref_error_cases': 100, 'error_after_first_record': 20, 'left_join_unmatched_rows': 20})
+        min_features={'some_rows_unchanged': 100, 'ref_error_cases': 100, 'error_after_first_record': 20, 'left_join_unmatched_rows': 20, 'csv_update_cases': 20000, 'csv_update_modifier_overrides_flag': 10000, 'js_csv_update_cases': 20000})
 
 
 def replay(rep):
